@@ -105,6 +105,11 @@ def bases(tier):
     for i in range(30):
         deep = ["taxonomicClassification", None, {}, [["taxonRankName", f"rank{i}", {}, []], ["taxonRankValue", "v", {}, []], deep]]
     out.append(("scale:deep-30", gtree.assign_ids(from_listspec(["taxonomicCoverage", None, {}, [deep]])), 2))
+    # qualified attributes added through the API in Clark notation (an importer writes them in prefix form)
+    gx = c07.decorate(gtree.shapes_upto(3)[-1], 1)
+    for _, n_ in gtree.walk(gx):
+        n_["extras"] = [["{http://www.w3.org/XML/1998/namespace}lang", "en"], ["{urn:u1}kind", "k"], ["p:x", "w"]]
+    out.append(("extras-in-clark-notation", gx, 3))
     # invalid trees (validators take their error branches)
     out.append(("invalid:unknown", gtree.assign_ids(from_listspec(
         ["dataset", "oops", {"zz": "1"}, [["zzUnknown", "x", {}, [["title", None, {}, []]]], ["title", None, {}, []],
